@@ -1502,6 +1502,42 @@ package snaps
 //@   assigns nothing
 //@   ensures r == has(s, i)
 //@
+// ---- positional structure of a well-formed snapshot file (examineSnaps: C07, C09, C10) -----------------
+// entryForm(F): F consists of nent(F) entries; entry e has its header line at token ehdr(F,e) and its terminator
+// at eend(F,e); headers are test-id lines, bodies contain no terminator, entries are ordered and disjoint, every
+// header-shaped line outside the entries' bodies is an entry header, and no body line equals an entry header
+// (the K2 restriction). eidx numbers the entries by header, which makes the headers pairwise distinct.
+//@ mode lines
+//@ axiom line_whole: forall s Str {seg(s, 0)}: nl(s) == 1 ==> seg(s, 0) == s
+//@ specfun term(s Str) Bool = seg(s, nl(s) - 1) == ""
+//@ specfun nent(F Str) Int
+//@ specfun ehdr(F Str, e Int) Int
+//@ specfun eend(F Str, e Int) Int
+//@ specfun entOf(F Str, j Int) Int
+//@ specfun eidx(F Str, h Str) Int
+//@ specfun idOfHdr(b Str) Str = substr(b, 1, len(b) - 2)
+//@ specfun entryForm(F Str) Bool
+//@ specfun entryFormDef(F Str) Bool = nent(F) >= 0
+//@   && (forall e in 0..nent(F): 0 <= ehdr(F, e) && ehdr(F, e) < eend(F, e) && eend(F, e) < ntok(F) && isTestHdr(tok(F, ehdr(F, e))) && tok(F, eend(F, e)) == "---" && eidx(F, tok(F, ehdr(F, e))) == e)
+//@   && (forall e in 0..nent(F): forall j in ehdr(F, e) + 1..eend(F, e): tok(F, j) != "---")
+//@   && (forall e1 in 0..nent(F): forall e2 in e1 + 1..nent(F): eend(F, e1) < ehdr(F, e2))
+//@   && (forall j in 0..ntok(F): isTestHdr(tok(F, j)) ==> 0 <= entOf(F, j) && entOf(F, j) < nent(F) && ehdr(F, entOf(F, j)) <= j && j < eend(F, entOf(F, j)))
+//@   && (forall e1 in 0..nent(F): forall j in ehdr(F, e1) + 1..eend(F, e1): forall e2 in 0..nent(F): tok(F, j) != tok(F, ehdr(F, e2)))
+//@ axiom entryForm_def: forall F Str {entryForm(F)}: entryForm(F) == entryFormDef(F)
+// the gap before entry n: from just after the terminator of entry n-1 up to the header of entry n (or the end)
+//@ specfun gapLo(F Str, n Int) Int
+//@ specfun gapHi(F Str, n Int) Int
+//@ axiom gapLo_def: forall F Str, n Int {gapLo(F, n)}: gapLo(F, n) == (n == 0 ? 0 : eend(F, n - 1) + 1)
+//@ axiom gapHi_def: forall F Str, n Int {gapHi(F, n)}: gapHi(F, n) == (n < nent(F) ? ehdr(F, n) : ntok(F))
+//@ lemma gap_hdr @C07,C09,C10 use=lines: forall F Str, n Int, j Int {gapHi(F, n), seg(F, j)}: entryForm(F) && 0 <= n && n <= nent(F) && gapLo(F, n) <= j && j <= gapHi(F, n) && j < ntok(F) && isTestHdr(tok(F, j)) ==> n < nent(F) && j == ehdr(F, n)
+//@ lemma gap_nonhdr @C07,C09,C10 use=lines: forall F Str, n Int, j Int {gapHi(F, n), seg(F, j)}: entryForm(F) && 0 <= n && n <= nent(F) && gapLo(F, n) <= j && j <= gapHi(F, n) && j < ntok(F) && !isTestHdr(tok(F, j)) ==> j + 1 <= gapHi(F, n)
+//@ lemma gap_next @C07,C09,C10 use=lines: forall F Str, m Int {gapHi(F, m)}: entryForm(F) && 1 <= m && m <= nent(F) ==> eend(F, m - 1) + 1 <= gapHi(F, m) && gapLo(F, m) == eend(F, m - 1) + 1
+//@ lemma gap_end @C07,C09,C10 use=lines: forall F Str, n Int {gapHi(F, n)}: entryForm(F) && 0 <= n && n <= nent(F) && gapHi(F, n) >= ntok(F) ==> n == nent(F)
+//@ lemma end_unique @C07,C09,C10 use=lines: forall F Str, e Int, q Int {eend(F, e), seg(F, q)}: entryForm(F) && 0 <= e && e < nent(F) && ehdr(F, e) < q && q <= eend(F, e) && tok(F, q) == "---" ==> q == eend(F, e)
+//@ lemma hdr_distinct @C07,C09,C10 use=lines: forall F Str, e1 Int, e2 Int {ehdr(F, e1), ehdr(F, e2)}: entryForm(F) && 0 <= e1 && e1 < nent(F) && 0 <= e2 && e2 < nent(F) && e1 != e2 ==> tok(F, ehdr(F, e1)) != tok(F, ehdr(F, e2))
+// capOK(F, e, T): T is the captured text of entry e: its body lines, each followed by a newline
+//@ specfun capOK(F Str, e Int, T Str) Bool = term(T) && nl(T) == eend(F, e) - ehdr(F, e) && (forall i in 0..nl(T) - 1: seg(T, i) == tok(F, ehdr(F, e) + 1 + i))
+//@ mode all
 //@ func examineSnaps(registry, used, runOnly, count, update, sort) returns (obs, err)
 //@   mode lines
 //@   dead ret2
@@ -1521,14 +1557,30 @@ package snaps
 //@   let locals = tests != nil && !old(alloc)[tests] && data != nil && !old(alloc)[data] && (registry != nil ==> old(alloc)[registry])
 //@   let kept = !update ==> (forall k in 0..len(testIDs): has(tests, testIDs[k]))
 //@   loop 1 invariant mapsKept && gate && locals && 0 <= $idx_1 && len(testIDs) == 0
+//@   loop 1 invariant [reset] wbuf[data] == "" && (forall id Str {has(tests, id)}: !has(tests, id))
 //@   loop 1.1 invariant mapsKept && gate && locals && 0 <= $idx_1 && $idx_1 < len(used) && snapPath == used[$idx_1]
 //@   loop 1.1 invariant f != nil && !old(alloc)[f] && fpath[f] == snapPath && s != nil && !old(alloc)[s] && s != f && s != data && f != data && scunb[s] && scsrc[s] == fsc[snapPath] && 0 <= scpos[s] && scpos[s] <= ntok(scsrc[s])
 //@   loop 1.1 invariant registeredTests != nil
 //@   loop 1.1 invariant [no_drop_without_update] kept || scpos[s] == ntok(scsrc[s])
+//@   let F = scsrc[s]
+//@   let n = len(testIDs)
+//@   let pos = scpos[s]
+//@   loop 1.1 invariant [data] wbuf[data] == "" || pos == ntok(F)
+//@   loop 1.1 invariant [cap] entryForm(F) ==> 0 <= n && n <= nent(F) && gapLo(F, n) <= pos && pos <= gapHi(F, n)
+//@       && (forall k in 0..n: "[" + testIDs[k] + "]" == tok(F, ehdr(F, k)) && testIDs[k] == idOfHdr(tok(F, ehdr(F, k))))
+//@       && (forall k in 0..n: has(tests, testIDs[k]) ==> capOK(F, k, tests[testIDs[k]]))
+//@       && (forall k in 0..n: !has(tests, testIDs[k]) ==> update)
+//@       && (forall id Str {has(tests, id)}: has(tests, id) ==> 0 <= eidx(F, "[" + id + "]") && eidx(F, "[" + id + "]") < n && testIDs[eidx(F, "[" + id + "]")] == id)
 //@   loop 1.1.1 invariant mapsKept && gate && locals && 0 <= $idx_1 && $idx_1 < len(used) && snapPath == used[$idx_1]
 //@   loop 1.1.1 invariant f != nil && !old(alloc)[f] && fpath[f] == snapPath && s != nil && !old(alloc)[s] && s != f && s != data && f != data && scunb[s] && scsrc[s] == fsc[snapPath] && 0 <= scpos[s] && scpos[s] <= ntok(scsrc[s])
 //@   loop 1.1.1 invariant registeredTests != nil && len(testIDs) >= 1 && testIDs[len(testIDs) - 1] == testID
 //@   loop 1.1.1 invariant !update ==> (forall k in 0..len(testIDs) - 1: has(tests, testIDs[k]))
+//@   loop 1.1.1 invariant [cap] entryForm(F) ==> 1 <= n && n <= nent(F) && ehdr(F, n - 1) < pos && pos <= eend(F, n - 1)
+//@       && (forall k in 0..n: "[" + testIDs[k] + "]" == tok(F, ehdr(F, k)) && testIDs[k] == idOfHdr(tok(F, ehdr(F, k))))
+//@       && (forall k in 0..n - 1: has(tests, testIDs[k]) ==> capOK(F, k, tests[testIDs[k]]))
+//@       && (forall k in 0..n - 1: !has(tests, testIDs[k]) ==> update)
+//@       && (forall id Str {has(tests, id)}: has(tests, id) ==> 0 <= eidx(F, "[" + id + "]") && eidx(F, "[" + id + "]") < n - 1 && testIDs[eidx(F, "[" + id + "]")] == id)
+//@       && term(wbuf[data]) && nl(wbuf[data]) == pos - ehdr(F, n - 1) && (forall i in 0..nl(wbuf[data]) - 1: seg(wbuf[data], i) == tok(F, ehdr(F, n - 1) + 1 + i))
 //@   loop 1.2 invariant mapsKept && fsxKept && locals && 0 <= $idx_1 && $idx_1 < len(used) && snapPath == used[$idx_1] && f != nil && !old(alloc)[f] && fpath[f] == snapPath && f != data
 //@   loop 1.2 invariant (update || sort) && (forall p Str {fsc[p]}: (forall k in 0..len(used): used[k] != p) ==> fsc[p] == old(fsc)[p])
 
